@@ -559,7 +559,10 @@ impl FileHistory {
                     let b = if j < str.len() {
                         str.as_bytes()[j]
                     } else {
-                        0 // unexpected if History::save works properly
+                        // dangling backslash: the line was cut short (torn write);
+                        // keep what has been unescaped so far instead of the raw line
+                        str = "";
+                        break;
                     };
                     match b {
                         b'n' => {
